@@ -484,6 +484,18 @@ func rebuildRoster(s network.Suite, ro *onet.Roster, how string, rs rosterSpec) 
 		r2 := onet.NewRoster(l)
 		r2.ID = ro.ID
 		return r2
+	case "nilid-perm":
+		// a roster without id (hand-built, read from a file, or the wire id left empty by a
+		// peer) holding the same servers in another order
+		l := append([]*network.ServerIdentity(nil), ro.List...)
+		for i, j := 0, len(l)-1; i < j; i, j = i+1, j-1 {
+			l[i], l[j] = l[j], l[i]
+		}
+		return &onet.Roster{List: l, Aggregate: ro.Aggregate}
+	case "nilid-super":
+		// ... or a superset of them, a stranger first
+		l := append([]*network.ServerIdentity{poolServer(s, 90002, rs.Svc)}, ro.List...)
+		return &onet.Roster{List: l, Aggregate: ro.Aggregate}
 	case "nokey":
 		// the roster as it comes off the wire when its last member carries no public key
 		// (the field is optional): same id, same members
@@ -1069,7 +1081,7 @@ func generate(rng *rand.Rand, tier string) []interface{} {
 	if !quick {
 		odd = 400
 	}
-	rebuilds := []string{"perm", "short", "other", "nil", "dup", "nokey"}
+	rebuilds := []string{"perm", "short", "other", "nil", "dup", "nokey", "nilid-perm", "nilid-super"}
 	for i := 0; i < odd; i++ {
 		n := 1 + rng.Intn(9)
 		sh := randomShape(rng, n, i%3)
@@ -1124,7 +1136,7 @@ func generate(rng *rand.Rand, tier string) []interface{} {
 	}
 	for r := 0; r < reps; r++ {
 		for _, dsc := range descs {
-			for _, rb := range []string{"same", "perm", "short", "dup", "nokey"} {
+			for _, rb := range []string{"same", "perm", "short", "dup", "nokey", "nilid-perm", "nilid-super"} {
 				n := 1 + rng.Intn(8)
 				ins = append(ins, input{Kind: "make", Desc: dsc, Rebuild: rb, Suite: suitesL[r%2], Roster: rosterSpec{Members: seqInts(n)},
 					Tree: treeSpec{Shape: randomShape(rng, n, r%3), Place: seqInts(n)}})
